@@ -50,7 +50,7 @@ var allScopes = []string{
 	tmplgen.ScopeRenderOtherFormat, tmplgen.ScopeRegexQuote, tmplgen.ScopeTemplateQuote, tmplgen.ScopeTemplateHole,
 	tmplgen.ScopeCSSCommentQuote, tmplgen.ScopeEventAttr, tmplgen.ScopeStyleAttr, tmplgen.ScopeTagSpace, tmplgen.ScopeDoubleEscaped,
 	tmplgen.ScopeEscapedBackslash, tmplgen.ScopeUnquotedEmpty, tmplgen.ScopeJSCommentHole, tmplgen.ScopeMinusAdjacent,
-	tmplgen.ScopeScriptTypeJS, tmplgen.ScopeMDBareURL, tmplgen.ScopeMDAutolink, tmplgen.ScopeMDURLMacro, tmplgen.ScopeMDEmphasisAdj, tmplgen.ScopeCommentQuote, tmplgen.ScopeImportMap,
+	tmplgen.ScopeScriptTypeJS, tmplgen.ScopeMDBareURL, tmplgen.ScopeMDAutolink, tmplgen.ScopeMDURLMacro, tmplgen.ScopeMDEmphasisAdj, tmplgen.ScopeCommentQuote, tmplgen.ScopeImportMap, tmplgen.ScopeTypedMacroTag,
 }
 
 func (prop) Drive(d *core.Driver) error {
